@@ -683,6 +683,19 @@ impl<'a> Case<'a> {
                 self.failed = true;
                 ctx.report(&cfgname, "model", sig, format!("v{v}: is_empty()={} with len {}", s.is_empty, s.len), desc);
             }
+            // the typed view's getters agree with the vector's
+            if let Some((tl, tc, te, tp)) = s.typed_getters {
+                if tl != s.len || tc != s.cap || te != (s.len == 0) || (tp != s.base && self.cfg.elem.size != 0) {
+                    self.failed = true;
+                    ctx.report(
+                        &cfgname,
+                        "model",
+                        sig,
+                        format!("v{v}: typed view reports len {tl} capacity {tc} is_empty {te} as_ptr {tp:#x}; the vector has len {} capacity {} storage {:#x}", s.len, s.cap, s.base),
+                        desc,
+                    );
+                }
+            }
             if let Some(c) = self.cfg.fixed_cap {
                 if s.cap != c {
                     self.failed = true;
